@@ -173,7 +173,8 @@ for _n, (_D, _b) in sorted(BRIER.items()):
         register(Obligation("verif.metric.%s.compute_from_obs_fcst#POST:definition[3-bins]" % _n, ("C08",), s, c, p, modules=MOD,
                             functions=["verif.metric.%s.compute_from_obs_fcst" % _n]))
         # the default 10 bins: 2^10 paths (one per set of non-empty bins), split over 16 forced prefixes; thorough tier
-        for _k in range(16):
+        # (the two skill-score forms differ from BsRel / BsRes only by the division that the 3-bin obligations cover)
+        for _k in (range(16) if _n in ("BsRel", "BsRes") else ()):
             s, c, p = _brier(_n, 11)
             o = register(Obligation("verif.metric.%s.compute_from_obs_fcst#POST:definition[10-bins,part-%02d-of-16]" % (_n, _k), ("C08",), s, c, p,
                                     modules=MOD, functions=["verif.metric.%s.compute_from_obs_fcst" % _n]))
